@@ -113,7 +113,17 @@ pub trait ChainExt: Sized {
 }
 impl<const N: usize> ChainExt for &mut FixedBuf<N> {
     #[verifier::external_body]
-    fn chain<B: AsyncRead>(self, next: B) -> (c: Chain<Self, B>) { unimplemented!() }
+    fn chain<B: AsyncRead>(self, next: B) -> (c: Chain<Self, B>)
+        // reading out of a well-formed FixedBuf (its AsyncRead impl only advances the read index) leaves it well-formed
+        ensures old(self).wf() ==> final(self).wf()
+    { unimplemented!() }
+}
+
+// Request derives Clone in the source (the derive is dropped with the other outer attributes because
+// its field types are stand-ins here): a clone is an equal value.
+impl Clone for Request {
+    #[verifier::external_body]
+    fn clone(&self) -> (r: Self) ensures r == *self { unimplemented!() }
 }
 
 // ---- the serialiser and the request reader, assumed at this level (their heads are built with
@@ -248,3 +258,76 @@ pub open spec fn conn_read_body_post(pre: HttpConn, post: HttpConn, r: Result<Re
         },
     }
 }
+
+// ---- C08 at the level of handle_http_conn_once / handle_http_conn
+// the wire after `pre` holds nothing more, or exactly one complete interim 100-continue
+pub open spec fn clean_boundary(pre: HttpConn, post: HttpConn) -> bool {
+    wire(post) == wire(pre) || exists|r100: Response| #[trigger] is_new_response(r100, 100) && wire(post) == wire(pre) + ser(r100, false)
+}
+pub open spec fn error_path_ok(pre: HttpConn, post: HttpConn) -> bool {
+    // shut down or nothing owed (a further write_response is refused and writes nothing), or still owed and untouched
+    post.write_state == WriteState::Shutdown || post.write_state == WriteState::None
+    || (post.write_state == WriteState::Response && clean_boundary(pre, post))
+}
+pub open spec fn once_post(pre: HttpConn, post: HttpConn, r: Result<(), HttpError>) -> bool {
+    (pre.read_state == ReadState::Head && pre.write_state == WriteState::None && r is Err && !(r->Err_0 is Disconnected))
+        ==> error_path_ok(pre, post)
+}
+// a failed write on a connection owing a response: shut down, or nothing went out and the response is still owed
+pub broadcast proof fn lemma_write_err(pre: HttpConn, post: HttpConn, resp: Response, r: Result<(), HttpError>)
+    requires #[trigger] conn_write_response_post(pre, post, resp, r), r is Err, pre.write_state == WriteState::Response,
+    ensures post.write_state == WriteState::Shutdown || (post.write_state == WriteState::Response && wire(post) == wire(pre)),
+{
+    if wire(post).len() <= wire(pre).len() {
+        assert(wire(post) =~= wire(pre));
+    }
+}
+// a failed body read on a connection owing a response
+pub broadcast proof fn lemma_body_err(pre: HttpConn, post: HttpConn, r: Result<RequestBody, HttpError>, max: Option<u64>)
+    requires #[trigger] conn_read_body_post(pre, post, r, max), r is Err, pre.write_state == WriteState::Response,
+    ensures error_path_ok(pre, post),
+{
+    if body_guard_err(pre.read_state, max) is None && pre.read_state->expect_continue {
+        let e = r->Err_0;
+        if exists|r100: Response| #[trigger] is_new_response(r100, 100) && conn_write_response_post(pre, post, r100, Err::<(), HttpError>(e)) {
+            let r100 = choose|r100: Response| #[trigger] is_new_response(r100, 100) && conn_write_response_post(pre, post, r100, Err::<(), HttpError>(e));
+            lemma_write_err(pre, post, r100, Err::<(), HttpError>(e));
+        }
+    }
+}
+// the response an error is turned into (src/http_error.rs; the full table is checked per variant by the Kani set c20)
+pub open spec fn error_response(e: HttpError, r: Response) -> bool {
+    if e is Disconnected { r.kind == ResponseKind::DropConnection }
+    else { r.kind == ResponseKind::Normal && (r.code == 400 || r.code == 413 || r.code == 431 || r.code == 505 || r.code == 500) }
+}
+impl vstd::std_specs::convert::FromSpecImpl<&'static str> for ResponseBody {
+    open spec fn obeys_from_spec() -> bool { false }
+    uninterp spec fn from_spec(s: &'static str) -> ResponseBody;
+}
+impl vstd::std_specs::convert::FromSpecImpl<String> for ResponseBody {
+    open spec fn obeys_from_spec() -> bool { false }
+    uninterp spec fn from_spec(s: String) -> ResponseBody;
+}
+impl vstd::std_specs::convert::FromSpecImpl<HttpError> for Response {
+    open spec fn obeys_from_spec() -> bool { false }
+    uninterp spec fn from_spec(e: HttpError) -> Response;
+}
+impl HttpError {
+    // builds the text of the 400/431/505 bodies with to_string(): outside the properties decided here
+    #[verifier::external_body]
+    pub fn description(&self) -> String { unimplemented!() }
+}
+// permit::Permit, safina::executor token: opaque
+#[verifier::external_body]
+pub struct Permit { _p: () }
+impl Permit {
+    #[verifier::external_body]
+    pub fn is_revoked(&self) -> bool { unimplemented!() }
+}
+#[verifier::external_body]
+pub struct Token { _p: () }
+#[verifier::external_body]
+pub fn verif_print() { unimplemented!() }
+// std calls on the error path whose results no obligation here depends on (no contract assumed beyond the types)
+pub assume_specification [std::string::String::into_bytes] (_0: std::string::String) -> std::vec::Vec<u8>;
+pub assume_specification<T: std::ops::Deref> [std::option::Option::<T>::as_deref] (_0: &std::option::Option<T>) -> std::option::Option<&<T as std::ops::Deref>::Target>;
